@@ -418,6 +418,9 @@ def P_expr(e, left=False):
     if k in ("and", "or"):
         return [k, P_expr(e[1], True), P_expr(e[2], True)]
     if k == "not":
+        if e[1][0] in ("in", "notin", "not") and e[1][0] != "insub":
+            # the criterion's own negate() method - the other way to write NOT (IN-list criteria override it)
+            return ["call", P_expr(e[1], True), "negate", []]
         return ["not", P_expr(e[1], True)]
     if k in ("isnull", "notnull"):
         return [k, P_expr(e[1], True)]
